@@ -26,7 +26,9 @@ struct Baseline {
 
 static void fill_file_cfg(Rng &g, Scn &s, int maxT, int maxChunks) {
   fill_base(g, s, maxT);
-  int T = (int)g.range(1, maxT);
+  // mostly few workers (cheap), but every thread count occurs: header size, IV table and several 8-bit quantities
+  // depend on it (a verify/decrypt disagreement that only exists for T >= 13 was missed with T <= 4: seeded change C12-3)
+  int T = g.chance(0.85) ? (int)g.range(1, maxT) : (int)g.range(5, 16);
   s.i["T"] = T;
   long ch = (long)CHB();
   long chunks = (long)g.below(maxChunks + 1);
@@ -335,9 +337,14 @@ static Verdict run_C05(const Scn &s) {
   Bytes F2 = apply_faults(s, B, key);
   Diff d = diff_files(B.F, F2, B.e.hmode);
   if (!d.any) return skipv("fault-changed-nothing");
-  // a splice that yields the complete other file is a substitution by another authentic file, not an alteration
-  // (also when, on top of that, only bytes that carry no information were changed)
-  if (!B.G.empty() && !diff_files(B.G, F2, B.e.hmode).informative) return skipv("fault-produced-another-authentic-file");
+  // A splice that yields the complete other file G is a substitution by another authentic file, not an alteration
+  // (also when, on top of that, only bytes that carry no information were changed): skipped.  If the fault list
+  // reproduces G except for the cipher-mode byte, it is the known finding K1 applied to G: G becomes the baseline.
+  if (!B.G.empty()) {
+    Diff dg = diff_files(B.G, F2, B.e.hmode);
+    if (!dg.informative) return skipv("fault-produced-another-authentic-file");
+    if (dg.only_byte8) { d = dg; B.F = B.G; B.P = B.P2; }
+  }
   Verdict v;
   v.case_hash = case_hash_faults(s);
   v.nontrivial = true;
